@@ -16,8 +16,9 @@ EXTENDS Registry, TraceLib
 CONSTANT KnownDeviations
 VARIABLES l, variant,
           pend,    \* attributions registered since the last dump (ghost for KF-C10-2)
-          ustore   \* attributions the unifier's own catalogue holds (ghost for KF-C10-4)
-tvars == <<vars, l, variant, pend, ustore>>
+          regs,    \* <<endpoint, names>> of every registration since the last dump (ghost for KF-C10-5)
+          ustore   \* attributions the unifier's own catalogue holds (ghost for KF-C10-4, -5)
+tvars == <<vars, l, variant, pend, regs, ustore>>
 
 Is(name) == l <= NEv /\ TLog[l].ev = name
 E == TLog[l]
@@ -29,7 +30,7 @@ TReset == /\ Is("Reset")
           /\ flt' = [e \in Eps |-> FltOf(E.flt[e])]
           /\ last' = [e \in Eps |-> {}] /\ lastN' = [e \in Eps |-> 0] /\ known' = {}
           /\ perEp' = [e \in Eps |-> {}] /\ idx' = {} /\ uni' = {} /\ dirty' = {}
-          /\ act' = "Init" /\ variant' = E.variant /\ pend' = {} /\ ustore' = {}
+          /\ act' = "Init" /\ variant' = E.variant /\ pend' = {} /\ regs' = {} /\ ustore' = {}
           /\ l' = l + 1 /\ UNCHANGED scn
 
 -----------------------------------------------------------------------------
@@ -47,18 +48,20 @@ EvWellFormed == IF E.ev = "Par"
                 ELSE TRUE
 Removed(S) == {e \in DOMAIN S : S[e].op = "Rm"}
 PendOf(S)  == UNION {Pairs(e, OpNames(e, S[e])) : e \in DOMAIN S}
+RegsOf(S)  == {<<e, OpNames(e, S[e])>> : e \in {x \in DOMAIN S : S[x].op \in {"Reg", "Direct"}}}
 OpCore == /\ l <= NEv /\ E.ev \in OpEvents /\ EvWellFormed
           /\ DOMAIN EvS \subseteq Eps
           /\ act' = E.ev /\ Apply(EvS)
-          /\ pend' = pend \cup PendOf(EvS)
+          /\ pend' = pend \cup PendOf(EvS) /\ regs' = regs \cup RegsOf(EvS)
           /\ Consume
 TOp == OpCore /\ ustore' = {p \in ustore : p[2] \notin Removed(EvS)}
 
 \* a list with a nameless entry pushed through the registry API
 TBad  == /\ Is("Bad") /\ E.e \in Eps
-         /\ IF E.rejected THEN act' = "Bad" /\ Apply(E.e :> OpNone("Bad")) /\ pend' = pend
+         /\ IF E.rejected THEN act' = "Bad" /\ Apply(E.e :> OpNone("Bad")) /\ UNCHANGED <<pend, regs>>
             ELSE LET L == SelectSeq(Listing(E.L), LAMBDA x : x.n # <<>>) IN
-                 act' = "Direct" /\ Apply(E.e :> OpDir(L)) /\ pend' = pend \cup Pairs(E.e, Names(L))
+                 /\ act' = "Direct" /\ Apply(E.e :> OpDir(L))
+                 /\ pend' = pend \cup Pairs(E.e, Names(L)) /\ regs' = regs \cup {<<E.e, Names(L)>>}
          /\ Consume /\ UNCHANGED ustore
 
 -----------------------------------------------------------------------------
@@ -85,13 +88,16 @@ QuiesceWith(mo, rs) ==
     /\ uni' = (IF mo THEN MergeOnlyUni ELSE StrictUni) \cup (IF rs THEN Resurrected ELSE {})
     /\ dirty' = {}
     /\ UNCHANGED <<flt, last, lastN, known, perEp, idx>>
-DumpWith(mo, rs) ==
+\* which of its registrations since the last dump the unifier ends up with, per dirty endpoint
+InOrder == [e \in dirty |-> last[e]]
+Orders  == {f \in [dirty -> {r[2] : r \in regs}] : \A e \in dirty : <<e, f[e]>> \in regs}
+DumpWith(mo, rs, ord) ==
     /\ Is("Dump") /\ E.quiet
-    /\ QuiesceWith(mo, rs) /\ act' = "Dump" /\ pend' = {}
-    /\ ustore' = {p \in ustore : p[2] \notin dirty} \cup UNION {Pairs(e, last[e]) : e \in dirty}
+    /\ QuiesceWith(mo, rs) /\ act' = "Dump" /\ pend' = {} /\ regs' = {}
+    /\ ustore' = {p \in ustore : p[2] \notin dirty} \cup UNION {Pairs(e, ord[e]) : e \in dirty}
     /\ BaseViewsOK /\ LookupsOK(uni') /\ UnifiedOK(uni')
     /\ Consume
-TDump == DumpWith(FALSE, FALSE)
+TDump == DumpWith(FALSE, FALSE, InOrder)
 
 -----------------------------------------------------------------------------
 (* Known findings (each only if listed in KnownDeviations)                                     *)
@@ -109,7 +115,7 @@ KF_C10_1 == /\ "KF-C10-1" \in KnownDeviations
             /\ LET L == Listing(E.L) IN
                idx' = (idx \ Pairs(E.e, perEp[E.e])) \cup Pairs(E.e, Names(SubSeq(L, 1, FirstNameless(L) - 1)))
             /\ idx' # idx
-            /\ UNCHANGED <<flt, last, lastN, known, perEp, uni, dirty, pend, ustore>>
+            /\ UNCHANGED <<flt, last, lastN, known, perEp, uni, dirty, pend, regs, ustore>>
             /\ Consume /\ UseDeviation("KF-C10-1")
 
 (* KF-C10-2: the unified registry merges a new listing INTO the existing global entries        *)
@@ -123,13 +129,19 @@ KF_C10_1 == /\ "KF-C10-1" \in KnownDeviations
 (* (GetUnifiedModel -> unifier.ResolveAlias) and keep finding them; (b) the next merge of a    *)
 (* model with the same (case-folded) name copies the unifier's entry -- removed endpoint       *)
 (* included -- back into the global catalogue.                                                 *)
+(*                                                                                             *)
+(* KF-C10-5: every RegisterModels starts its own merge goroutine; nothing orders the merges    *)
+(* of two successive listings of one endpoint, so the unifier's catalogue can end up with the  *)
+(* OLDER listing (any registration since the previous quiescence, instead of the last).        *)
 Listed(id) == id \in KnownDeviations /\ variant = "unified"
 KF_Dump == \E mo \in (IF Listed("KF-C10-2") THEN BOOLEAN ELSE {FALSE}) :
            \E rs \in (IF Listed("KF-C10-4") THEN BOOLEAN ELSE {FALSE}) :
-              /\ mo \/ rs
+           \E ord \in (IF Listed("KF-C10-5") THEN Orders ELSE {InOrder}) :
+              /\ mo \/ rs \/ ord # InOrder
               /\ mo => MergeOnlyUni # StrictUni /\ UseDeviation("KF-C10-2")
               /\ rs => Resurrected # {} /\ UseDeviation("KF-C10-4")
-              /\ DumpWith(mo, rs)
+              /\ ord # InOrder => UseDeviation("KF-C10-5")
+              /\ DumpWith(mo, rs, ord)
 KF_C10_4 == /\ Listed("KF-C10-4")
             /\ OpCore /\ \E p \in ustore : p[2] \in Removed(EvS)
             /\ UNCHANGED ustore /\ UseDeviation("KF-C10-4")
@@ -137,7 +149,7 @@ KF_C10_4 == /\ Listed("KF-C10-4")
 TraceInit == /\ flt = [e \in Eps |-> NoFilter]
              /\ last = [e \in Eps |-> {}] /\ lastN = [e \in Eps |-> 0] /\ known = {}
              /\ perEp = [e \in Eps |-> {}] /\ idx = {} /\ uni = {} /\ dirty = {}
-             /\ act = "Init" /\ scn = <<>> /\ l = 1 /\ variant = "none" /\ pend = {} /\ ustore = {}
+             /\ act = "Init" /\ scn = <<>> /\ l = 1 /\ variant = "none" /\ pend = {} /\ regs = {} /\ ustore = {}
 TraceNext == TReset \/ TOp \/ TBad \/ TDump \/ KF_C10_1 \/ KF_Dump \/ KF_C10_4
 TraceSpec == TraceInit /\ [][TraceNext]_tvars
 HW == HWMark(l)
